@@ -234,7 +234,7 @@ def _rtsubs(kinds, qcases, tcases):
                         env={'VERIF_KINDS': kinds + (',sbset,sbget' if (not tsan and 'sb' in kinds.split(',')) else ''), 'VERIF_CONFIG_TSAN': tsan}, timeout=(900, 3600)))
     return subs
 PROPS['C01'].subs += _rtsubs('lockrec,lockrec,trylockrec', 60, 150)
-PROPS['C04'].subs += _rtsubs('ticket,ticket,countdown,zerorace,zerorace,casloop,mix,mp,sb', 30, 300)
+PROPS['C04'].subs += _rtsubs('ticket,ticket,countdown,zerorace,zerorace,casloop,mix,mp,sb', 30, 100)
 PROPS['C01'].rule += ' Real-thread sub-checks: generated (threads 2-8, rounds, lock kind, noise seed) lock programs on real threads, under ThreadSanitizer for the c11 and sim models (any race report on the protected record is a violation - this is the visibility clause) and with outcome oracles only on plain -O2 builds of c11, sync, sim.'
 PROPS['C04'].rule += ' Real-thread sub-checks: ticket uniqueness (add), countdown (dec_and_test TRUE exactly once), zero-race rounds (all threads decrement a word set to the thread count, tightly synchronised, exactly one TRUE per round), CAS increment loop, or/xor/and/inc mixes, message-passing and store-buffering litmus with iteration counts; TSan on c11/sim, outcome oracles on plain c11/sync/sim.'
 PROPS['C01'].assumptions.append('ThreadSanitizer is not applied to the sync model (plain volatile store + full fence is outside its happens-before vocabulary and reports on the unchanged tree); on x86-64 a missing release fence in sync has no observable outcome')
@@ -375,9 +375,9 @@ harness('rt_tsan_general', 'engines/rthreads/rthreads.cpp', 'gcc-tsan-general')
 harness('rt_asan_c11', 'engines/rthreads/rthreads.cpp', 'gcc-asan')
 def _rt2(kinds, cfgs, q, t):
     return [Sub('rt_' + c, 'rt_' + c, shards=(1, 2), cases=(q, t), maxsize=(100, 100), kind='stress', env={'VERIF_KINDS': kinds, 'VERIF_CONFIG_TSAN': 1 if 'tsan' in c or 'asan' in c else 0}, timeout=(900, 3600)) for c in cfgs]
-PROPS['C02'].subs += _rt2('rwrec', ['tsan_c11', 'tsan_general', 'plain_c11'], 25, 300)
+PROPS['C02'].subs += _rt2('rwrec', ['tsan_c11', 'tsan_general', 'plain_c11'], 25, 150)
 PROPS['C03'].subs += _rt2('bbuf', ['tsan_c11', 'plain_c11'], 12, 200)
-PROPS['C05'].subs += _rt2('thr', ['tsan_c11', 'asan_c11', 'plain_c11'], 20, 300)
+PROPS['C05'].subs += _rt2('thr', ['tsan_c11', 'asan_c11', 'plain_c11'], 20, 150)
 PROPS['C02'].rule += ' Real-thread sub-checks: generated (threads, rounds, noise) reader/writer programs on real threads under ThreadSanitizer for the native and the general implementation, plus a plain -O2 run: record race or lost update = violation.'
 PROPS['C03'].rule += ' Real-thread sub-checks: generated bounded-buffer programs (capacity 1-3, signal/broadcast by seed) on real threads under ThreadSanitizer and plain -O2: items conserved, no race report.'
 PROPS['C05'].rule += ' Real-thread sub-checks: rounds of create/ref/unref/join with exit codes, plain result stores read after join and TLS set/replace with a counting notifier, under ThreadSanitizer, ASan and plain -O2.'
